@@ -677,7 +677,9 @@ class IkeSa(object):
         payload_ke = response.get_payload(Payload.Type.KE, encrypted)
 
         # select the peers proposal.
-        if not payload_sa.proposals[0].is_subset(self.chosen_proposal):
+        # (one transform of every type we offered: an answer that leaves a type out is a subset of the offer, and incomplete)
+        intersection = self.chosen_proposal.intersection(payload_sa.proposals[0])
+        if intersection is None or intersection != payload_sa.proposals[0]:
             raise NoProposalChosen('Responder proposal is not a subset of what we sent')
         self.chosen_proposal = payload_sa.proposals[0]
 
